@@ -6,12 +6,14 @@ CONSTANTS
   MaxLen = 4
   Salts = {0, 1}
   SetVals = {0, 2}
+  MaxKw = 3
 INVARIANT TypeOK
 INVARIANT HashTableTotal
 INVARIANT BindConflictFree
 INVARIANT SignatureOK
 INVARIANT OrderLaws
 INVARIANT EqHashCoherent
-INVARIANT ImplVsRef
+INVARIANT ImplVsRefCfg
+INVARIANT ImplVsRefStep
 INVARIANT Publish
 CHECK_DEADLOCK FALSE
